@@ -204,7 +204,8 @@ func judge(c *call) verdict {
 	case err != nil:
 		v.got = "ERR " + err.String()
 		if !w.orErr {
-			v.kind = "error-instead-of-value"
+			// the condition class is part of the kind so that two different rejections are not merged when shrinking
+			v.kind = "error-instead-of-value(" + err.Class + ")"
 		}
 	case w.truthy != nil:
 		if lisp.Truthy(obj) != *w.truthy {
